@@ -212,7 +212,8 @@ func c12Units(tier string) []hx.Unit {
 	// a registration forwarded over REST (as a beacon node or a validator client sends it) next to the
 	// refresher and another request
 	restRep := []string{"A", "U", "err", "null"}
-	restSets := [][]string{{"rest"}, {"rest", "lookup1"}, {"rest", "register"}}
+	// ... and a beacon node's bid request for which no auction has been held (vouch then holds one on the spot)
+	restSets := [][]string{{"rest"}, {"rest", "lookup1"}, {"rest", "register"}, {"bid1"}, {"bid1", "lookup2"}}
 	if tier == "thorough" {
 		restRep = append(restRep, "B", "malformed")
 		restSets = append(restSets, []string{"rest", "rest"}, []string{"rest", "auction2"})
@@ -309,6 +310,9 @@ func c12Body(st *c12State, seq, rs []string) {
 				_, r.err = svc.AuctionBlock(ctx, 3300, phase0.Hash32{1}, v2.pubkey())
 			case "register":
 				svc.VerifSubmitValidatorRegistrations(ctx)
+			case "bid1":
+				_, r.err = svc.BuilderBid(ctx, 3300, phase0.Hash32{1}, v1.pubkey())
+				r.err = nil // no bid is no failure
 			case "rest":
 				// a beacon node passes on the registration of a validator vouch does not control
 				ext := newAccount("X", "ext", 9)
